@@ -2,7 +2,7 @@
 specs/IdbQuery.tla evaluated in Python over a database in the shape of specs/IdbFileFormat.tla (the
 projection function), and small helpers for byte strings that TLC dumps as lists of numbers."""
 import importlib.util, json, os, subprocess, sys
-from ..common import MachineryError, REPO, HARNESS, NCPU
+from ..common import MachineryError, REPO, HARNESS, NCPU, sha
 from .. import build, harness, run
 
 KINDS = ("f", "w", "t", "m", "e", "s")
